@@ -9,6 +9,8 @@ Per callable of every pyrepseq module a conservative syntactic summary:
     (views, elements, pass-through calls such as np.asarray; aliases die on rebinding to a fresh
     object: literals, constructor calls, .copy(), dict(...), results of non-in-place library calls),
     to a default object, or to a module-level object; propagated through calls inside pyrepseq;
+  * switches of PROCESS-WIDE settings of other libraries (np.seterr, warnings filters, rcParams, pandas options,
+    os.environ, cwd, ...) that are not restored on every exit (try/finally or the library's context manager);
   * use of NumPy's global generator; constructs that cannot be classified (exec, eval of arbitrary
     text, globals(), ...), which Coq treats as possible mutation of everything the callable sees.
 Abstract value of an expression: (direct, inner) - the tracked objects it may BE / may CONTAIN.
@@ -47,6 +49,51 @@ TRANSPARENT_DECORATORS = {'staticmethod', 'classmethod', 'property', 'abstractme
                           'setter', 'getter', 'deleter', 'jit', 'njit', 'vectorize', 'guvectorize', 'contextmanager',
                           'asynccontextmanager', 'singledispatch', 'singledispatchmethod', 'register',
                           'total_ordering', 'deprecated', 'no_type_check', 'partial', 'partialmethod', 'dataclass'}
+# PROCESS-WIDE state outside pyrepseq's own modules (round 3): library calls that switch a setting of the whole
+# interpreter.  Such a call leaves module-level state changed for every later call (NumPy's floating-point error mode
+# decides whether 0/0 is nan or FloatingPointError) unless the function restores it ON EVERY EXIT: the call sits in /
+# directly before a `try` whose `finally` calls a setter of the same state again, or inside a `with` block of the
+# library's own restoring context manager.  A restore that is merely the next statement is skipped when anything in
+# between raises, so it does not count.  Token: ('G', '<process>:<state>') in `module objects mutated`.
+PROCESS_SETTERS = {
+    'numpy.seterr': 'numpy.errstate', 'numpy.seterrcall': 'numpy.errstate', 'numpy.setbufsize': 'numpy.errstate',
+    'numpy.set_printoptions': 'numpy.printoptions', 'numpy.set_string_function': 'numpy.printoptions',
+    'warnings.filterwarnings': 'warnings.filters', 'warnings.simplefilter': 'warnings.filters',
+    'warnings.resetwarnings': 'warnings.filters',
+    'matplotlib.pyplot.ion': 'matplotlib.interactive', 'matplotlib.pyplot.ioff': 'matplotlib.interactive',
+    'matplotlib.interactive': 'matplotlib.interactive',
+    'matplotlib.rc': 'matplotlib.rcParams', 'matplotlib.pyplot.rc': 'matplotlib.rcParams',
+    'matplotlib.rcdefaults': 'matplotlib.rcParams', 'matplotlib.pyplot.rcdefaults': 'matplotlib.rcParams',
+    'matplotlib.rc_file': 'matplotlib.rcParams', 'matplotlib.rc_file_defaults': 'matplotlib.rcParams',
+    'matplotlib.use': 'matplotlib.rcParams', 'matplotlib.pyplot.switch_backend': 'matplotlib.rcParams',
+    'matplotlib.style.use': 'matplotlib.rcParams', 'matplotlib.pyplot.style.use': 'matplotlib.rcParams',
+    'matplotlib.pyplot.xkcd': 'matplotlib.rcParams',
+    'seaborn.set': 'matplotlib.rcParams', 'seaborn.set_theme': 'matplotlib.rcParams', 'seaborn.set_style': 'matplotlib.rcParams',
+    'seaborn.set_context': 'matplotlib.rcParams', 'seaborn.set_palette': 'matplotlib.rcParams',
+    'seaborn.reset_defaults': 'matplotlib.rcParams', 'seaborn.reset_orig': 'matplotlib.rcParams',
+    'pandas.set_option': 'pandas.options', 'pandas.reset_option': 'pandas.options',
+    'os.chdir': 'os.cwd', 'os.fchdir': 'os.cwd', 'os.putenv': 'os.environ', 'os.unsetenv': 'os.environ', 'os.umask': 'os.umask',
+    'random.seed': 'python.random', 'random.setstate': 'python.random', 'igraph.set_random_number_generator': 'python.random',
+    'locale.setlocale': 'locale', 'sys.setrecursionlimit': 'sys.recursionlimit', 'sys.setswitchinterval': 'sys.switchinterval',
+    'decimal.setcontext': 'decimal.context', 'logging.disable': 'logging', 'logging.basicConfig': 'logging',
+    'numpy.random.set_state': 'numpy.random', 'numpy.random.set_bit_generator': 'numpy.random',
+}
+# objects of other libraries that ARE such a setting: item / attribute assignment, del and mutator methods on them
+PROCESS_OBJECTS = {
+    'os.environ': 'os.environ', 'matplotlib.rcParams': 'matplotlib.rcParams', 'matplotlib.pyplot.rcParams': 'matplotlib.rcParams',
+    'matplotlib.rcParamsDefault': 'matplotlib.rcParams', 'warnings.filters': 'warnings.filters', 'pandas.options': 'pandas.options',
+    'sys.path': 'sys.path', 'sys.modules': 'sys.modules', 'sys.argv': 'sys.argv', 'sys.stdout': 'sys.stdout', 'sys.stderr': 'sys.stderr',
+}
+# `with <guard>(...):` restores the state on every exit
+PROCESS_GUARDS = {
+    'warnings.catch_warnings': 'warnings.filters', 'numpy.errstate': 'numpy.errstate', 'numpy.printoptions': 'numpy.printoptions',
+    'matplotlib.rc_context': 'matplotlib.rcParams', 'matplotlib.pyplot.rc_context': 'matplotlib.rcParams',
+    'matplotlib.style.context': 'matplotlib.rcParams', 'matplotlib.pyplot.style.context': 'matplotlib.rcParams',
+    'seaborn.axes_style': 'matplotlib.rcParams', 'seaborn.plotting_context': 'matplotlib.rcParams',
+    'pandas.option_context': 'pandas.options', 'contextlib.chdir': 'os.cwd',
+    'contextlib.redirect_stdout': 'sys.stdout', 'contextlib.redirect_stderr': 'sys.stderr',
+    'decimal.localcontext': 'decimal.context',
+}
 BOT = (frozenset(), frozenset())
 
 
@@ -342,6 +389,8 @@ class Analyzer:
         self.seen = {}          # name -> join of every value it ever held (for closures)
         self.nested = []        # nested defs / lambdas, re-analysed after the body with the closure environment
         self.local_effs = {}    # key of a nested def / lambda -> its global effect
+        self.guards = []        # process-wide states that the enclosing statements restore on every exit
+        self.nested_guards = {}  # nested def / lambda -> the guards in force where it was written
 
     # ---- recording
     def mutate(self, av, how, node):
@@ -355,6 +404,43 @@ class Analyzer:
                     tok[1][:-len(':cache')], '/'.join(self.P.funcs[tok[1][:-len(':cache')]].cached))
                     if tok[1].endswith(':cache') and tok[1][:-len(':cache')] in self.P.funcs else 'module object ' + tok[1])
                 self.notes.append('%s: %s on %s (line %d)' % (self.fn.qual, how, what, getattr(node, 'lineno', 0)))
+
+    def process_state(self, state, how, node):
+        """a switch of a process-wide setting; harmless only if the enclosing statements restore it on every exit"""
+        if state in self.guards or '*' in self.guards:
+            return
+        self.mutglob.add('<process>:' + state)
+        self.notes.append('%s: %s changes the process-wide state %s and is not restored on every exit (no try/finally or '
+                          'restoring context manager around it): it stays changed for all later calls whenever the code in '
+                          'between raises (line %d)' % (self.fn.qual, how, state, getattr(node, 'lineno', 0)))
+
+    def process_object(self, env, node):
+        """state token if the expression is (a part of) a process-wide object of another library, e.g. os.environ"""
+        while isinstance(node, (ast.Attribute, ast.Subscript)):
+            d = self.dotted(env, node) if isinstance(node, ast.Attribute) else None
+            if d in PROCESS_OBJECTS:
+                return PROCESS_OBJECTS[d]
+            node = node.value
+        return None
+
+    def restored_states(self, env, stmts):
+        """process-wide states that these statements (a `finally` block) set again"""
+        out = set()
+        for st in stmts:
+            for x in ast.walk(st):
+                if isinstance(x, ast.Call):
+                    d = self.dotted(env, x.func)
+                    if d in PROCESS_SETTERS:
+                        out.add(PROCESS_SETTERS[d])
+                    elif d is not None and d.rsplit('.', 1)[0] in PROCESS_OBJECTS and d.rsplit('.', 1)[-1] in MUTATORS:
+                        out.add(PROCESS_OBJECTS[d.rsplit('.', 1)[0]])
+                elif isinstance(x, (ast.Assign, ast.AugAssign, ast.Delete)):
+                    for t in (x.targets if not isinstance(x, ast.AugAssign) else [x.target]):
+                        if isinstance(t, (ast.Subscript, ast.Attribute)):
+                            g = self.process_object(env, t.value)
+                            if g:
+                                out.add(g)
+        return out
 
     def unk(self, what, node):
         self.unknown.append('%s (line %d)' % (what, getattr(node, 'lineno', 0)))
@@ -658,6 +744,10 @@ class Analyzer:
                 self.rng = True
         if d in INPLACE_FUNCS and len(args) > INPLACE_FUNCS[d]:
             self.mutate(args[INPLACE_FUNCS[d]][0], 'in-place library call %s' % d, n)
+        if d in PROCESS_SETTERS:
+            self.process_state(PROCESS_SETTERS[d], 'library call %s' % d, n)
+        elif d.rsplit('.', 1)[0] in PROCESS_OBJECTS and d.rsplit('.', 1)[-1] in MUTATORS:
+            self.process_state(PROCESS_OBJECTS[d.rsplit('.', 1)[0]], 'mutator method %s()' % d, n)
         first = args[0][0] if args else next((a for k, (a, _), _ in kws if k in ('data', 'a', 'object')), BOT)
         if d in PASSTHROUGH or kwconst.get('copy') is False:
             return first, aeff
@@ -751,6 +841,9 @@ class Analyzer:
             return ('skip',)
         a, e = self.ev(env, base)
         self.mutate(a, 'item assignment' if isinstance(target, ast.Subscript) else 'attribute assignment', node)
+        pg = self.process_object(env, base)
+        if pg:
+            self.process_state(pg, 'assignment into %s' % (self.dotted(env, base) or pg), node)
         if isinstance(target, ast.Subscript):
             _, e2 = self.ev(env, target.slice)
             e = seq(e, e2)
@@ -794,8 +887,15 @@ class Analyzer:
 
     def block(self, env, stmts):
         ef = ('skip',)
-        for s in stmts:
+        for i, s in enumerate(stmts):
+            nxt = stmts[i + 1] if i + 1 < len(stmts) else None
+            # `old = np.seterr(...)` DIRECTLY before `try: ... finally: np.seterr(**old)` is the restoring idiom
+            g = sorted(self.restored_states(env, nxt.finalbody)) if isinstance(nxt, ast.Try) and nxt.finalbody \
+                and isinstance(s, (ast.Assign, ast.AnnAssign, ast.Expr)) else []
+            self.guards.extend(g)
             ef = seq(ef, self.stmt(env, s))
+            if g:
+                del self.guards[-len(g):]
         return ef
 
     @staticmethod
@@ -920,16 +1020,36 @@ class Analyzer:
 
     def st_With(self, env, s):
         ef = ('skip',)
+        pushed = 0
         for it in s.items:
-            a, e = self.ev(env, it.context_expr)
+            c = it.context_expr
+            d = self.dotted(env, c.func) if isinstance(c, ast.Call) else None
+            # the library's restoring context manager (or a setter that is one: `with plt.ioff():`) guards its block
+            g = PROCESS_GUARDS.get(d) or PROCESS_SETTERS.get(d)
+            if g:
+                self.guards.append(g)
+                pushed += 1
+            a, e = self.ev(env, c)
             ef = seq(ef, e)
             if it.optional_vars is not None:
                 ef = seq(ef, self.assign(env, it.optional_vars, (frozenset(), allof(a)), s))
-        return seq(ef, self.block(env, s.body))
+        ef = seq(ef, self.block(env, s.body))
+        if pushed:
+            del self.guards[-pushed:]
+        return ef
     st_AsyncWith = st_With
 
     def st_Try(self, env, s):
         start = dict(env)
+        g = sorted(self.restored_states(env, s.finalbody)) if s.finalbody else []
+        self.guards.extend(g)           # whatever the finally block sets again is restored on every exit of the body
+        try:
+            return self.st_Try_guarded(env, s, start)
+        finally:
+            if g:
+                del self.guards[-len(g):]
+
+    def st_Try_guarded(self, env, s, start):
         body = self.block(env, s.body)
         mid = self.merge([start, env])
         henvs, heffs = [], ('skip',)
@@ -944,7 +1064,9 @@ class Analyzer:
         merged = self.merge([env] + henvs)
         env.clear()
         env.update(merged)
+        self.guards.append('*')          # the finally block is the restore
         fin = self.block(env, s.finalbody)
+        self.guards.pop()
         # the body may stop anywhere before a handler runs: its writes are then not guaranteed
         return seq(alt(seq(body, oe), seq(loop(body), heffs)), fin)
     st_TryStar = st_Try
@@ -973,13 +1095,14 @@ class Analyzer:
 
     def nested_eff(self, env, node):
         e2 = self.nested_env(env, node)
-        saved = (self.ret, self.seen)
+        saved = (self.ret, self.seen, self.guards)
         self.seen = dict(self.seen)
+        self.guards = list(self.nested_guards.setdefault(id(node), list(self.guards)))
         if isinstance(node, ast.Lambda):
             _, ef = self.ev(e2, node.body)
         else:
             ef = self.block(e2, node.body)
-        self.ret, self.seen = saved[0], self.merge([saved[1], self.seen])
+        self.ret, self.seen, self.guards = saved[0], self.merge([saved[1], self.seen]), saved[2]
         return ef
 
     # ---- whole function
